@@ -24,6 +24,8 @@ THEOREMS = ['Tbox.C20.C20_weekly_earliest', 'Tbox.C20.C20_weekly_empty_mask', 'T
             'Tbox.C20.C20_refresh_again_same_target',
             'Tbox.C20.C20_cdo_next_skips_nothing', 'Tbox.C20.C20_cnext_earliest_partial', 'Tbox.C20.C20_cnext_agrees_with_reference',
             'Tbox.C20.C20_cnext_fuel_counterexample',
+            'Tbox.C20.C20_cnext_more_fuel_same_answer', 'Tbox.C20.C20_cnext_fuel_stable', 'Tbox.C20.C20_cnext_fuel_sufficient',
+            'Tbox.C20.C20_cnext_none_is_horizon', 'Tbox.C20.C20_cnext_earliest_upto_horizon',
             'Tbox.C20.C20_arm_reads_clock_once', 'Tbox.C20.C20_delay_not_short_first_reading', 'Tbox.C20.C20_second_reading_counterexample',
             'Tbox.C20.C20_remain_reads_clock_once']
 SOURCES = ['modules/alarm/alarm.cpp', 'modules/alarm/weekly_alarm.cpp', 'modules/alarm/oneshot_alarm.cpp',
@@ -77,7 +79,7 @@ ASSUMPTIONS = ['weekly / one-shot / workday arming theorems: the local computati
                'C20_clock_failure_goes_idle; outside the property statement',
                'cron: beyond ccronexpr\'s year horizon (CRON_MAX_YEARS_DIFF) "no instant" is the specified answer of both sides; the transcribed cron_next is proved to return the EARLIEST '
                'match whenever it returns an instant (C20_cnext_earliest_partial) and never an instant different from the reference\'s (C20_cnext_agrees_with_reference); that it DOES return one '
-               'whenever the reference does (exact year horizon, sufficiency of the model\'s recursion fuel) is compared on every case, not a theorem']
+               'whenever the reference does is closed up to ONE lemma: the model\'s recursion fuel is proved never to be the reason for an answer (more fuel never changes an answer; with any matching instant M > t every fuel > M - t is sufficient and a "none" there is the horizon test: C20_cnext_fuel_sufficient, C20_cnext_none_is_horizon, C20_cnext_earliest_upto_horizon); that the horizon test `tm_year - dot > 4` fires exactly when the reference\'s does is compared on every case, not a theorem']
 RULE = ('(1) pure: calculateNextLocalTimeSec of weekly/oneshot/workday probes on generated (seconds-of-day, mask, calendar, t) with t at day/week '
         'boundaries +-2 s over the whole uint32 range; (2) histories of up to 4 alarms on the real loop: new/init/tz/enable/disable/refresh/cleanup, '
         'calendar updates, destruction, callback scripts (refresh/disable/enable/cleanup/initialize/setTimezone of any alarm incl. the own one, destroy another alarm '
